@@ -94,6 +94,33 @@ def build(name):
             pass
         T = C if name == 'as_forged_class' else D
         return {'objs': {'w': T, 'base': C}, 'calls': {'sig': lambda: sigtools.signature(T), 'inspect': lambda: inspect.signature(T)}}
+    if name == 'forger_bound_method':
+        # a bound method takes no attributes: the declaration falls back on wrapping it (_ForgerWrapper) by itself
+        class K(object):
+            def m(self, a, *args, **kwargs):
+                return inner(*args, **kwargs)
+        k = K()
+        w = specifiers.forwards_to_function(inner)(k.m)
+        return {'objs': {'w': w, 'm': K.__dict__['m'], 'inner': inner}, 'calls': {'sig': lambda: sigtools.signature(w), 'inspect': lambda: inspect.signature(w)}}
+    if name == 'sig_property':
+        # __signature__ provided by a property of the class (computed on every access)
+        class P(object):
+            @property
+            def __signature__(self):
+                return inspect.signature(inner)
+
+            def __call__(self, *args, **kwargs):
+                return inner(*args, **kwargs)
+        o = P()
+        return {'objs': {'w': o, 'cls': P, 'inner': inner}, 'calls': {'sig': lambda: sigtools.signature(o), 'inspect': lambda: inspect.signature(o)}}
+    if name == 'combination':
+        def first(arg, y=0, *, z=None):
+            return arg
+
+        def second(arg, *args, **kwargs):
+            return inner(arg, *args, **kwargs)
+        c = wrappers.Combination(first, second)
+        return {'objs': {'w': c, 'first': first, 'second': second, 'inner': inner}, 'calls': {'sig': lambda: sigtools.signature(c), 'inspect': lambda: inspect.signature(c)}}
     if name == 'decorator':
         @wrappers.decorator
         def d(func, *args, c=3, **kwargs):
@@ -161,7 +188,7 @@ def build(name):
     raise ValueError(name)
 
 
-SCENARIOS = ['wraps', 'wraps_chain', 'signature_attr', 'signature_attr_upgraded', 'forger', 'forger_emulate', 'modifiers', 'as_forged', 'as_forged_class', 'as_forged_subclass', 'decorator', 'method_kwo',
+SCENARIOS = ['wraps', 'wraps_chain', 'signature_attr', 'signature_attr_upgraded', 'forger', 'forger_emulate', 'modifiers', 'as_forged', 'as_forged_class', 'as_forged_subclass', 'forger_bound_method', 'sig_property', 'combination', 'decorator', 'method_kwo',
              'forger_function', 'partial_wraps', 'super_class', 'wrapper_decorator']
 WATCHED = ('__wrapped__', '__signature__', '_sigtools__forger', '_sigtools__wrappers')
 
@@ -517,7 +544,8 @@ def crash_part(check, tier, seed, scratch):
 SCHED_CASES = [('wraps', ['sig', 'sig']), ('wraps', ['sig', 'inspect']), ('wraps_chain', ['sig', 'sig1']), ('signature_attr', ['sig', 'inspect']), ('as_forged', ['inspect', 'inspect']),
                ('as_forged', ['sig', 'inspect']), ('forger_emulate', ['inspect', 'inspect']), ('modifiers', ['sig', 'sig']), ('method_kwo', ['sig', 'bind']),
                ('decorator', ['inspect', 'sig']), ('wraps', ['sig', 'sig', 'inspect']), ('partial_wraps', ['sig', 'inspect']), ('super_class', ['sig', 'sig']),
-               ('wrapper_decorator', ['inspect', 'inspect']), ('forger_function', ['sig', 'inspect']), ('as_forged_class', ['sig', 'inspect']), ('as_forged_subclass', ['sig', 'sig'])]
+               ('wrapper_decorator', ['inspect', 'inspect']), ('forger_function', ['sig', 'inspect']), ('as_forged_class', ['sig', 'inspect']), ('as_forged_subclass', ['sig', 'sig']),
+               ('forger_bound_method', ['sig', 'inspect']), ('sig_property', ['sig', 'inspect']), ('combination', ['sig', 'sig'])]
 
 
 # cases where the second preemption is SWEPT over every step of the other thread while the first thread is parked part-way (holding what it holds)
